@@ -1,6 +1,8 @@
+import Lean.Elab.Term
 import DoviModel.Model.CView
 import DoviModel.Model.Ops
 import DoviModel.Proofs.CViewProof
+import DoviModel.Gen.SourceCStructs
 import DoviModel.Props.C03
 /-!
 # C20 — the C API presents the same data as the Rust API and reports failures as errors
@@ -10,7 +12,12 @@ wrappers carries an error exactly when parsing failed; the getters return null e
 `-1` / empty markers; the L2/L8/L10 lists are the container's blocks of that level, complete and in order;
 single-instance level pointers are faithful and no block of a valid RPU is lost; every object the getters
 allocate is released exactly once by the matching free functions and no null pointer reaches a deallocator.
-The tie between this model and the real `extern "C"` functions is the correspondence check of `./check C20`.
+The C-side structures of the model are field-by-field mirrors of the `#[repr(C)]` structs (not the Rust structures):
+`cview_injective_parsed` states exactly which Rust fields equal C views determine, `cHeader_not_injective` and
+`cview_not_injective_ext_mapping_idc_0_4` / `…_5_7` prove that the fields the C structs lack really are lost.
+The tie between this model and the real `extern "C"` functions is the correspondence check of `./check C20`, and,
+for the struct declarations and `From` impls, the translator `tools/gen_source_cstructs.py` with the
+`source_cstructs_agree…` theorems at the end of this file.
 -/
 namespace Dovi.C20
 open Dovi
@@ -356,7 +363,7 @@ theorem count_mapping (m : Mapping) (h : m.notMixed = true) (o : Obj) :
       = someIf m.nlq_pred_pivot_value.isSome .nlqPred := by
     cases hq : m.nlq_pred_pivot_value <;> simp [cMapping, hq, guarded, someIf]
   have en : (guarded (ptrOf Obj.nlq (cMapping m).nlq)).filterMap id = someIf m.nlq.isSome .nlq := by
-    rw [fm_guarded, fm_someIf]; rfl
+    rw [fm_guarded, fm_someIf]; simp [cMapping]
   simp only [freeMapping, allocsMapping, List.filterMap_append, e0, e1, e2, freeCurve_eq _ _ h.1.1,
     freeCurve_eq _ _ h.1.2, freeCurve_eq _ _ h.2, ep, en, List.count_append]
   have : List.filterMap id [some Obj.map] = [Obj.map] := rfl
@@ -648,29 +655,44 @@ example : ({ polynomial := some { poly_order_minus1 := [0] }, mmr := some {} } :
 /-! ## the header view determines every exported header field -/
 
 /-- the JSON rendering of the C header (what the correspondence check compares with the real `repr(C)` struct)
-is injective on `guessed_profile`, `el_type` and every header field the C struct has — no two fields are merged;
-the three Rust fields the C struct does not have (`coefficient_log2_denom_length`, `ext_mapping_idc_0_4`,
-`ext_mapping_idc_5_7`) are the only ones it does not determine -/
-theorem header_json_injective (c c' : CHeader) (h : c.toJson = c'.toJson) :
-    c.guessed_profile = c'.guessed_profile ∧ c.el_type = c'.el_type ∧
-    ({ c.hdr with coefficient_log2_denom_length := 0, ext_mapping_idc_0_4 := 0, ext_mapping_idc_5_7 := 0 } : Header) =
-      { c'.hdr with coefficient_log2_denom_length := 0, ext_mapping_idc_0_4 := 0, ext_mapping_idc_5_7 := 0 } := by
-  obtain ⟨g, e, hd⟩ := c
-  obtain ⟨g', e', hd'⟩ := c'
-  cases hd; cases hd'
+is injective on the C struct: `guessed_profile`, `el_type` and each of its 21 copied fields is printed under its
+own key, no two fields are merged -/
+theorem header_json_injective (c c' : CHeader) (h : c.toJson = c'.toJson) : c = c' := by
+  obtain ⟨g, e, f1, f2, f3, f4, f5, f6, f7, f8, f9, f10, f11, f12, f13, f14, f15, f16, f17, f18, f19, f20, f21⟩ := c
+  obtain ⟨g', e', k1, k2, k3, k4, k5, k6, k7, k8, k9, k10, k11, k12, k13, k14, k15, k16, k17, k18, k19, k20, k21⟩ := c'
   simp only [CHeader.toJson, cn, CJ.obj.injEq, List.cons.injEq, Prod.mk.injEq, CJ.num.injEq, CJ.bool.injEq,
     Int.natCast_inj, true_and, and_true] at h
   obtain ⟨h1, h2, h3⟩ := h
-  refine ⟨h1, ?_, ?_⟩
-  · cases e with
+  have he : e = e' := by
+    cases e with
     | none => cases e' with
       | none => rfl
       | some x => cases x <;> simp at h2
     | some x => cases e' with
       | none => cases x <;> simp at h2
       | some y => cases x <;> cases y <;> simp at h2 <;> rfl
-  · simp only [Header.mk.injEq, true_and]
-    simp_all
+  subst h1; subst he
+  simp only [CHeader.mk.injEq, true_and]
+  simp_all
+
+/-- **the C header carries every Rust header field except three**: two Rust headers whose C structs
+(`RpuDataHeader::from`) are equal agree in all fields but `coefficient_log2_denom_length`, `ext_mapping_idc_0_4`,
+`ext_mapping_idc_5_7` (the C struct has no such members); for headers of the parser's shape the first of these
+is a function of carried fields (`derivedDenomLength`), so only the two `ext_mapping_idc` fields stay open -/
+theorem cHeader_determines (h h' : Header) (hc : cHeaderFrom h = cHeaderFrom h') :
+    h = { h' with coefficient_log2_denom_length := h.coefficient_log2_denom_length,
+                  ext_mapping_idc_0_4 := h.ext_mapping_idc_0_4, ext_mapping_idc_5_7 := h.ext_mapping_idc_5_7 } ∧
+    (h.Wf = true → h'.Wf = true →
+      h = { h' with ext_mapping_idc_0_4 := h.ext_mapping_idc_0_4, ext_mapping_idc_5_7 := h.ext_mapping_idc_5_7 }) :=
+  ⟨cHeaderFrom_eq h h' hc, fun hw hw' => cHeaderFrom_eq_wf h h' hw hw' hc⟩
+
+/-- **the limit is real, for arbitrary Rust headers**: each of the three fields the C struct lacks can be changed
+without changing the C header (these are `pub` fields: an RPU built or edited through the Rust API may hold any
+value there) -/
+theorem cHeader_not_injective :
+    cHeaderFrom { coefficient_log2_denom_length := 7 } = cHeaderFrom {} ∧
+    cHeaderFrom { ext_mapping_idc_0_4 := 7 } = cHeaderFrom {} ∧
+    cHeaderFrom { ext_mapping_idc_5_7 := 7 } = cHeaderFrom {} := by decide
 
 /-! ## the C mapping determines the Rust mapping -/
 
@@ -813,18 +835,18 @@ CM v4.0 container is present exactly when there is an L254 block -/
 theorem parsed_dm_containers (a : Bytes) (r : Rpu) (hp : parseRpu a = .ok r) (d : DmData) (hd : r.vdr_dm_data = some d) :
     d.validate = true ∧ d.cmv29.isSome = true ∧ containerCount d.cmv29 = (containerBlocks d.cmv29).length ∧
     containerCount d.cmv40 = (containerBlocks d.cmv40).length ∧
-    (d.cmv40.isSome = true ↔ levelList (containerBlocks d.cmv40) 254 ≠ []) := by
+    (d.cmv40.isSome = true ↔ levelList (containerBlocks d.cmv40) 254 ≠ []) ∧ d.main.length = 32 := by
   obtain ⟨hval, bits, rest, r0, hrd, rfl⟩ := parseRpu_parts hp
   obtain ⟨_, _, _, _, _, hdm⟩ := readRpuData_parts hrd
   obtain ⟨s, s', hs⟩ := hdm d hd
-  obtain ⟨_, _, _, ⟨c29, hc29, ok29⟩, ok40, _⟩ := ParseWf.parseDmData_wf hs
+  obtain ⟨_, hmain, _, ⟨c29, hc29, ok29⟩, ok40, _⟩ := ParseWf.parseDmData_wf hs
   have hdv : d.validate = true := by
     simp only [Rpu.validate, Bool.and_eq_true] at hval
     have := hval.2
     dsimp only at hd this
     rw [hd] at this
     exact this
-  refine ⟨hdv, by simp [hc29], by simp [hc29, containerCount, containerBlocks, ok29.count], ?_, ?_⟩
+  refine ⟨hdv, by simp [hc29], by simp [hc29, containerCount, containerBlocks, ok29.count], ?_, ?_, hmain⟩
   · cases hc40 : d.cmv40 with
     | none => rfl
     | some c => simp [containerCount, containerBlocks, (ok40 c hc40).count]
@@ -841,26 +863,38 @@ theorem parsed_dm_containers (a : Bytes) (r : Rpu) (hp : parseRpu a = .ok r) (d 
       rw [hnil] at this
       cases this
 
-/-- **two parsed RPUs with the same C view carry the same data**: the same header (every field), profile and
-`el_type`, the same mapping (every coefficient, pivot, NLQ field and marker), and DM payloads that agree in all
-scalar fields and, container by container and level by level, in their blocks.  The only thing the C structures
-do not determine is the interleaving of DM blocks of different levels (see the example above), plus the parts
-of the Rust `DoviRpu` that have no getter (`remaining`, CRC, trailing zero count) -/
+/-- **what two parsed RPUs with the same C view have in common** — exactly the Rust fields the C structs carry:
+
+* the header in every field **except `ext_mapping_idc_0_4` and `ext_mapping_idc_5_7`**, which the C
+  `RpuDataHeader` does not have (`cview_not_injective_ext_mapping_idc_0_4` / `…_5_7` below: they really can differ).
+  `coefficient_log2_denom_length` is not a C field either, but for a parsed header it is a function of
+  `vdr_seq_info_present_flag`, `coefficient_data_type`, `coefficient_log2_denom` (`denomLength_of_wf`), so it agrees;
+* `dovi_profile` (= the C `guessed_profile`, recomputed from the header) and `el_type`;
+* the mapping: every scalar, pivot, coefficient, NLQ field and `-1` / null marker;
+* the DM payload in all scalar fields and, container by container and level by level, in its blocks
+  (`DmSame`): the interleaving of blocks of different levels inside a container is **not** determined.
+
+Not determined either, having no getter: `remaining`, `rpu_data_crc32`, `modified`, `trailing_zeroes` -/
 theorem cview_injective_parsed (a b : Bytes) (r r' : Rpu) (hp : parseRpu a = .ok r) (hp' : parseRpu b = .ok r')
     (hc : cview r = cview r') :
-    r.header = r'.header ∧ r.dovi_profile = r'.dovi_profile ∧ r.el_type = r'.el_type ∧
+    r.header = { r'.header with ext_mapping_idc_0_4 := r.header.ext_mapping_idc_0_4,
+                                ext_mapping_idc_5_7 := r.header.ext_mapping_idc_5_7 } ∧
+    r.dovi_profile = r'.dovi_profile ∧ r.el_type = r'.el_type ∧
     r.rpu_data_mapping = r'.rpu_data_mapping ∧
     (r.vdr_dm_data = none ↔ r'.vdr_dm_data = none) ∧
     ∀ d d', r.vdr_dm_data = some d → r'.vdr_dm_data = some d' → DmSame d d' := by
-  have hh : r.header = r'.header := congrArg (fun v => v.header.hdr) hc
+  have hch : cHeaderFrom r.header = cHeaderFrom r'.header :=
+    congrArg (fun v => ({ v.header with el_type := none } : CHeader)) hc
+  have hh := cHeaderFrom_eq_wf r.header r'.header (parseRpu_header_wf hp) (parseRpu_header_wf hp') hch
   have hel : r.el_type = r'.el_type := congrArg (fun v => v.header.el_type) hc
+  have hgp : r.header.getDoviProfile = r'.header.getDoviProfile := congrArg (fun v => v.header.guessed_profile) hc
   have hprof : r.dovi_profile = r'.dovi_profile := by
     obtain ⟨_, _, _, r0, hrd, rfl⟩ := parseRpu_parts hp
     obtain ⟨_, _, _, r0', hrd', rfl⟩ := parseRpu_parts hp'
     have e1 := (readRpuData_parts hrd).1
     have e2 := (readRpuData_parts hrd').1
-    dsimp only at hh ⊢
-    rw [e1, e2, hh]
+    dsimp only at hgp ⊢
+    rw [e1, e2, hgp]
   have hmap : r.rpu_data_mapping.map cMapping = r'.rpu_data_mapping.map cMapping := congrArg CView.mapping hc
   have hdm : r.vdr_dm_data.map cDm = r'.vdr_dm_data.map cDm := congrArg CView.dm hc
   refine ⟨hh, hprof, hel, ?_, ?_, ?_⟩
@@ -882,17 +916,20 @@ theorem cview_injective_parsed (a b : Bytes) (r r' : Rpu) (hp : parseRpu a = .ok
   · intro d d' hd hd'
     rw [hd, hd'] at hdm
     simp only [Option.map_some, Option.some.injEq] at hdm
-    obtain ⟨v, s29, n29, n40, i40⟩ := parsed_dm_containers a r hp d hd
-    obtain ⟨v', s29', n29', n40', i40'⟩ := parsed_dm_containers b r' hp' d' hd'
+    obtain ⟨v, s29, n29, n40, i40, m32⟩ := parsed_dm_containers a r hp d hd
+    obtain ⟨v', s29', n29', n40', i40', m32'⟩ := parsed_dm_containers b r' hp' d' hd'
     have hlev : cLevels d = cLevels d' := congrArg CDm.dm_data hdm
+    have hmain : d.main = d'.main := by
+      rw [← cDm_mainVals d m32, ← cDm_mainVals d' m32', hdm]
     obtain ⟨e29, e40, _⟩ := (cLevels_eq_iff d d' v v').1 hlev
     have p29 := perm_of_levelLists _ _ e29
     have p40 := perm_of_levelLists _ _ e40
     refine ⟨congrArg CDm.compressed hdm, congrArg CDm.affected_dm_metadata_id hdm,
-      congrArg CDm.current_dm_metadata_id hdm, congrArg CDm.scene_refresh_flag hdm, congrArg CDm.main hdm,
+      congrArg CDm.current_dm_metadata_id hdm, congrArg CDm.scene_refresh_flag hdm, hmain,
       by rw [s29, s29'], ?_, by rw [n29, n29', p29.length_eq], by rw [n40, n40', p40.length_eq], e29, e40, p29, p40⟩
     have : (d.cmv40.isSome = true ↔ d'.cmv40.isSome = true) := by rw [i40, i40', e40]
-    cases h1 : d.cmv40.isSome <;> cases h2 : d'.cmv40.isSome <;> simp_all
+    cases h1 : d.cmv40.isSome <;> cases h2 : d'.cmv40.isSome <;>
+      first | rfl | (rw [h1, h2] at this; simp at this)
 
 /-- if both payloads keep each container sorted by level (as every container touched by `add_block` /
 `replace_metadata_block` is: `Container.update` sorts), agreement up to interleaving is equality -/
@@ -922,13 +959,17 @@ theorem dmSame_sorted_eq (d d' : DmData) (h : DmSame d d')
   subst a; subst b; subst c; subst e; subst f; subst e29; subst e40
   rfl
 
-/-- **two parsed RPUs with the same C view and level-sorted containers are the same RPU** up to the parts the C
-API has no getter for (the bytes between the DM data and the CRC, the CRC itself, the trailing zero count) -/
+/-- **two parsed RPUs with the same C view and level-sorted containers are the same RPU** up to the two header
+fields the C `RpuDataHeader` does not carry (`ext_mapping_idc_0_4`, `ext_mapping_idc_5_7`) and the parts the C API
+has no getter for (the bytes between the DM data and the CRC, the CRC itself, the trailing zero count) -/
 theorem cview_injective_parsed_sorted (a b : Bytes) (r r' : Rpu) (hp : parseRpu a = .ok r) (hp' : parseRpu b = .ok r')
     (hc : cview r = cview r')
     (hs : ∀ d, r.vdr_dm_data = some d → LevelSorted (containerBlocks d.cmv29) ∧ LevelSorted (containerBlocks d.cmv40))
     (hs' : ∀ d, r'.vdr_dm_data = some d → LevelSorted (containerBlocks d.cmv29) ∧ LevelSorted (containerBlocks d.cmv40)) :
-    r' = { r with remaining := r'.remaining, rpu_data_crc32 := r'.rpu_data_crc32, trailing_zeroes := r'.trailing_zeroes } := by
+    r' = { r with header := { r.header with ext_mapping_idc_0_4 := r'.header.ext_mapping_idc_0_4,
+                                            ext_mapping_idc_5_7 := r'.header.ext_mapping_idc_5_7 },
+                  remaining := r'.remaining, rpu_data_crc32 := r'.rpu_data_crc32,
+                  trailing_zeroes := r'.trailing_zeroes } := by
   obtain ⟨h1, h2, h3, h4, h5, h6⟩ := cview_injective_parsed a b r r' hp hp' hc
   have hdm : r.vdr_dm_data = r'.vdr_dm_data := by
     cases hd : r.vdr_dm_data with
@@ -946,10 +987,11 @@ theorem cview_injective_parsed_sorted (a b : Bytes) (r r' : Rpu) (hp : parseRpu 
     have e2 := (readRpuData_parts hrd').2.2.1
     show r0.modified = r0'.modified
     rw [e1, e2]
-  cases r; cases r'
+  obtain ⟨p, e, hd, m, d, rem, crc, md, tz⟩ := r
+  obtain ⟨p', e', hd', m', d', rem', crc', md', tz'⟩ := r'
   simp only at h1 h2 h3 h4 hdm hm ⊢
-  subst h1; subst h2; subst h3; subst h4; subst hdm; subst hm
-  rfl
+  subst h2; subst h3; subst h4; subst hdm; subst hm
+  rw [h1]
 
 /-- non-vacuity of the `parseRpu d = .ok r` hypotheses above: the bytes written for the generator's profile 8.1
 RPU (polynomial mapping, CM v2.9 and v4.0 containers with L5, L6, L9, L11, L254) are accepted by the parser, so
@@ -974,5 +1016,184 @@ example : ∃ a r, parseRpu a = .ok r ∧ r.rpu_data_mapping.isSome = true ∧ r
       (containerBlocks d.cmv29).Pairwise (fun a b => a.level ≤ b.level) ∧
       (containerBlocks d.cmv40).Pairwise (fun a b => a.level ≤ b.level) := by decide
   exact hdec d this
+
+/-! ## the limit of the header view is a fact: parsed RPUs that differ only where the C struct has no field -/
+
+/-- the generator's profile 8.1 RPU of `C03.exRpu` with `ext_mapping_idc_0_4 = 5` (the syntax packs the field into
+the upper byte of the `el_bit_depth_minus8` code; nothing validates it) -/
+def witRpu04 : Rpu := { C03.exRpu with header := { C03.exRpu.header with ext_mapping_idc_0_4 := 5 } }
+/-- … and with `ext_mapping_idc_5_7 = 3` -/
+def witRpu57 : Rpu := { C03.exRpu with header := { C03.exRpu.header with ext_mapping_idc_5_7 := 3 } }
+
+set_option maxRecDepth 100000 in
+theorem witRpu04_wf : RpuWf witRpu04 ∧ (writeRpu witRpu04).isOk = true := by
+  refine ⟨⟨by decide, by decide, by decide, by decide, ?_, ?_, ?_⟩, by decide⟩
+  · exact ⟨_, rfl, by decide⟩
+  · refine ⟨_, rfl, ⟨by decide, ⟨_, rfl, ⟨by decide, ?_⟩⟩, ?_, by decide, by decide, by decide⟩⟩
+    · intro b hb
+      apply C03.BlockFits_of_dec
+      revert b
+      decide
+    · intro c hc
+      injection hc with hc
+      subst hc
+      refine ⟨⟨by decide, ?_⟩, by decide⟩
+      intro b hb
+      apply C03.BlockFits_of_dec
+      revert b
+      decide
+  · intro rem hr
+    cases hr
+
+set_option maxRecDepth 100000 in
+theorem witRpu57_wf : RpuWf witRpu57 ∧ (writeRpu witRpu57).isOk = true := by
+  refine ⟨⟨by decide, by decide, by decide, by decide, ?_, ?_, ?_⟩, by decide⟩
+  · exact ⟨_, rfl, by decide⟩
+  · refine ⟨_, rfl, ⟨by decide, ⟨_, rfl, ⟨by decide, ?_⟩⟩, ?_, by decide, by decide, by decide⟩⟩
+    · intro b hb
+      apply C03.BlockFits_of_dec
+      revert b
+      decide
+    · intro c hc
+      injection hc with hc
+      subst hc
+      refine ⟨⟨by decide, ?_⟩, by decide⟩
+      intro b hb
+      apply C03.BlockFits_of_dec
+      revert b
+      decide
+  · intro rem hr
+    cases hr
+
+/-- a well-formed RPU that the writer accepts is, up to the recomputed CRC, a parse result -/
+theorem parsed_of_wf (w : Rpu) (hwf : RpuWf w) (hok : (writeRpu w).isOk = true) :
+    ∃ bytes crc, parseRpu bytes = .ok { w with rpu_data_crc32 := crc, modified := false } := by
+  cases h : writeRpu w with
+  | ok b =>
+    obtain ⟨crc, hp, _⟩ := C03.write_parse_sound w b h hwf
+    exact ⟨b, crc, hp⟩
+  | error => rw [h] at hok; cases hok
+  | panic => rw [h] at hok; cases hok
+
+/-- **non-injectivity witness, `ext_mapping_idc_0_4`**: two byte strings that `DoviRpu::parse` accepts, whose RPUs
+differ in the header field `ext_mapping_idc_0_4` (0 and 5) — and, necessarily, in the CRC-32 of the payload — and in
+nothing else, and whose C views (header, mapping and DM structs of the three getters) are equal. The C API cannot
+tell these two RPUs apart; `cview_injective_parsed` cannot be strengthened to `r.header = r'.header` -/
+theorem cview_not_injective_ext_mapping_idc_0_4 :
+    ∃ (a b : Bytes) (r r' : Rpu), parseRpu a = .ok r ∧ parseRpu b = .ok r' ∧ cview r = cview r' ∧
+      r.header.ext_mapping_idc_0_4 = 0 ∧ r'.header.ext_mapping_idc_0_4 = 5 ∧
+      r' = { r with header := { r.header with ext_mapping_idc_0_4 := 5 }, rpu_data_crc32 := r'.rpu_data_crc32 } := by
+  obtain ⟨a, c1, h1⟩ := parsed_of_wf C03.exRpu C03.exRpu_wf.1 C03.exRpu_wf.2
+  obtain ⟨b, c2, h2⟩ := parsed_of_wf witRpu04 witRpu04_wf.1 witRpu04_wf.2
+  exact ⟨a, b, _, _, h1, h2, rfl, (by decide : C03.exRpu.header.ext_mapping_idc_0_4 = 0), rfl, rfl⟩
+
+/-- **non-injectivity witness, `ext_mapping_idc_5_7`** (same construction, values 0 and 3) -/
+theorem cview_not_injective_ext_mapping_idc_5_7 :
+    ∃ (a b : Bytes) (r r' : Rpu), parseRpu a = .ok r ∧ parseRpu b = .ok r' ∧ cview r = cview r' ∧
+      r.header.ext_mapping_idc_5_7 = 0 ∧ r'.header.ext_mapping_idc_5_7 = 3 ∧
+      r' = { r with header := { r.header with ext_mapping_idc_5_7 := 3 }, rpu_data_crc32 := r'.rpu_data_crc32 } := by
+  obtain ⟨a, c1, h1⟩ := parsed_of_wf C03.exRpu C03.exRpu_wf.1 C03.exRpu_wf.2
+  obtain ⟨b, c2, h2⟩ := parsed_of_wf witRpu57 witRpu57_wf.1 witRpu57_wf.2
+  exact ⟨a, b, _, _, h1, h2, rfl, (by decide : C03.exRpu.header.ext_mapping_idc_5_7 = 0), rfl, rfl⟩
+
+/-! ## source tie: the mirror structures and conversions are the `#[repr(C)]` structs and `From` impls of the
+Rust sources (`tools/gen_source_cstructs.py` → `Gen/SourceCStructs.lean`, regenerated from /repo on every run) -/
+
+open Lean Elab Term in
+/-- `struct_fields% S`: the field names of the Lean structure `S`, in declaration order, as a `List String`
+literal (read from the environment at elaboration time) -/
+elab "struct_fields% " id:ident : term => do
+  let n ← realizeGlobalConstNoOverloadWithInfo id
+  let env ← getEnv
+  unless isStructure env n do throwError "{n} is not a structure"
+  return toExpr ((getStructureFields env n).toList.map fun f => f.toString)
+
+/-- the `cFields` name lists written next to the mirror structures of `Model/CView.lean` are the field names of
+those Lean structures, in order (the one Lean-only field, the null flag `nlq_pred_data_null`, set aside) -/
+theorem source_cstructs_agree_mirrors :
+    struct_fields% Dovi.CHeader = CHeader.cFields.map (·.1) ∧
+    struct_fields% Dovi.CPoly = CPoly.cFields.map (·.1) ∧
+    struct_fields% Dovi.CMmr = CMmr.cFields.map (·.1) ∧
+    struct_fields% Dovi.CCurve = CCurve.cFields.map (·.1) ∧
+    struct_fields% Dovi.CNlq = CNlq.cFields.map (·.1) ∧
+    (struct_fields% Dovi.CMapping).filter (fun f => !cAuxFields.contains f) = CMapping.cFields.map (·.1) ∧
+    struct_fields% Dovi.CLevels = CLevels.cFields.map (·.1) ∧
+    struct_fields% Dovi.CDm = CDm.cFields.map (·.1) ∧
+    CDm.cFields.map (·.1) = ["compressed", "affected_dm_metadata_id", "current_dm_metadata_id", "scene_refresh_flag"] ++
+      dmMainNames ++ ["dm_data"] := by decide
+
+/-- **source tie, C structs**: the `#[repr(C)]` structs of `c_structs/*.rs` as they stand in the Rust sources now —
+which structs there are, their fields, the order and the C type of every field — are the structs and fields of the
+model's mirrors (`cStructs`: `RpuDataHeader` ↦ `CHeader`, `RpuDataMapping` ↦ `CMapping`, `ReshapingCurve` ↦ `CCurve`,
+`PolynomialCurve` ↦ `CPoly`, `MMRCurve` ↦ `CMmr`, `RpuDataNlq` ↦ `CNlq`, `VdrDmData` ↦ `CDm`, `DmData` ↦ `CLevels`,
+the buffer structs and block lists ↦ `List`). Adding, removing, reordering or retyping a field of a C struct, or
+adding a struct, breaks this proof obligation -/
+theorem source_cstructs_agree : Src.CS.structs = cStructs := by decide
+
+/-- **source tie, block structs**: every `ExtMetadataBlockLevelN` is still `#[repr(C)]` (checked by the
+translator) and its fields, in declaration order, are the fields the model prints for a block of that level
+(`length` first for L8 / L9 / L10); the only `bool` member is L11's `reference_mode_flag` -/
+theorem source_cstructs_agree_blocks :
+    Src.CS.blockStructs.map (·.1) = cBlockLevels ∧
+    (∀ p ∈ Src.CS.blockStructs, p.2.map (·.1) = cBlockFieldNames p.1) ∧
+    (Src.CS.blockStructs.flatMap (·.2)).filter (·.2 == "bool") = [("reference_mode_flag", "bool")] := by decide
+
+/-- **source tie, conversions**: the seven field-by-field `From<&Rust struct>` impls of `c_structs/*.rs`, translated
+expression by expression into Lean functions over the model's structures, are the model's conversions — for every
+argument. A swapped, dropped or differently cast field in a `From` impl changes the translated function and
+breaks this proof obligation -/
+theorem source_cstructs_agree_conversions :
+    (∀ p, Src.CS.cPoly p = cPoly p) ∧ (∀ m, Src.CS.cMmr m = cMmr m) ∧ (∀ n, Src.CS.cNlq n = cNlq n) ∧
+    (∀ c, Src.CS.cCurve c = cCurve c) ∧ (∀ m, Src.CS.cMapping m = cMapping m) ∧ (∀ d, Src.CS.cDm d = cDm d) ∧
+    (∀ h, Src.CS.cHeaderFrom h = cHeaderFrom h) :=
+  ⟨fun _ => rfl, fun _ => rfl, fun _ => rfl, fun _ => rfl, fun _ => rfl, fun _ => rfl, fun _ => rfl⟩
+
+/-- the `From` impls of `buffers.rs` as they stand now: every buffer struct gets `len` = the number of elements and
+a pointer from `Box::into_raw` (never null); only `U16Data::from(Option<..>)` can produce `U16Data::empty()` -/
+def cBufferFromImpls : List (String × List (String × String)) := [
+  ("Data <- Vec<u8>", [("len", "buf.len()"), ("data", "Box::into_raw(buf.into_boxed_slice()) as *const u8")]),
+  ("Data <- Vec<bool>", [("let res", "buf.into_iter().map(|e| e as u8).collect()"), ("len", "res.len()"), ("data", "Box::into_raw(res.into_boxed_slice()) as *const u8")]),
+  ("U16Data <- Vec<u16>", [("len", "buf.len()"), ("data", "Box::into_raw(buf.into_boxed_slice()) as *const u16")]),
+  ("Data <- [bool; N]", [("let res", "array.map(|e| e as u8)"), ("len", "array.len()"), ("data", "Box::into_raw(Box::new(res)) as *const u8")]),
+  ("U64Data <- Vec<u64>", [("len", "buf.len()"), ("data", "Box::into_raw(buf.into_boxed_slice()) as *const u64")]),
+  ("U64Data <- ArrayVec<[u64; N]>", [("len", "buf.len()"), ("data", "Box::into_raw(buf.to_vec().into_boxed_slice()) as *const u64")]),
+  ("I64Data <- Vec<i64>", [("len", "buf.len()"), ("data", "Box::into_raw(buf.into_boxed_slice()) as *const i64")]),
+  ("I64Data <- ArrayVec<[i64; N]>", [("len", "buf.len()"), ("data", "Box::into_raw(buf.to_vec().into_boxed_slice()) as *const i64")]),
+  ("U16Data <- [u16; N]", [("len", "array.len()"), ("data", "Box::into_raw(Box::new(array)) as *const u16")]),
+  ("U64Data <- [u64; N]", [("len", "array.len()"), ("data", "Box::into_raw(Box::new(array)) as *const u64")])]
+
+/-- the 2D / 3D buffers: one boxed inner buffer per element, in order (the nesting of the Rust vectors is kept) -/
+def cNestedFromImpls : List (String × String × String) := [
+  ("U64Data2D <- Vec<ArrayVec<[u64; N]>>", "buf_2d", "U64Data"),
+  ("U64Data2D <- ArrayVec<[ArrayVec<[u64; N2]>; N]>", "buf_2d", "U64Data"),
+  ("I64Data2D <- Vec<ArrayVec<[i64; N]>>", "buf_2d", "I64Data"),
+  ("I64Data2D <- ArrayVec<[ArrayVec<[i64; N2]>; N]>", "buf_2d", "I64Data"),
+  ("U64Data3D <- Vec<ArrayVec<[ArrayVec<[u64; N2]>; N]>>", "buf_3d", "U64Data2D"),
+  ("I64Data3D <- Vec<ArrayVec<[ArrayVec<[i64; N2]>; N]>>", "buf_3d", "I64Data2D")]
+
+def nestedImpl (x : String × String × String) : String × List (String × String) :=
+  (x.1, [("let list", x.2.1 ++ ".into_iter().map(|buf| Box::into_raw(Box::new(" ++ x.2.2 ++ "::from(buf))) as *const " ++
+            x.2.2 ++ ").collect()"),
+         ("len", "list.len()"), ("list", "Box::into_raw(list.into_boxed_slice()) as *const *const " ++ x.2.2)])
+
+/-- **source tie, buffers and `DmData`**: the `From` impls of `buffers.rs`, `U16Data::empty()`, the arms and list
+assignments of `DmData::set_blocks`, the filters of the three `LevelNBlockList::from` and `DmData::default()`, as
+they stand in the Rust sources now, are what the model assumes: a buffer is its elements in order with `len` their
+number and a non-null pointer (so a `List`), an absent `nlq_pred_pivot_value` is `len` 0 with a null pointer, a
+block of a single-instance level goes to the pointer of its level (`singleLevels`), L2 comes from the CM v2.9
+container and L8 / L10 from the CM v4.0 container, each filtered by its own level -/
+theorem source_cstructs_agree_buffers_and_levels :
+    Src.CS.fromImpls.take 10 = cBufferFromImpls ∧
+    (Src.CS.fromImpls.drop 10).take 6 = cNestedFromImpls.map nestedImpl ∧
+    Src.CS.fromImpls.lookup "U16Data <- Option<[u16; N]>" = some [("=", "maybe_array.map_or(U16Data::empty(), U16Data::from)")] ∧
+    Src.CS.u16Empty = [("len", "0"), ("data", "null()")] ∧
+    Src.CS.setBlocksArms = cSetBlocksArms ∧ Src.CS.setBlocksLists = cSetBlocksLists ∧
+    Src.CS.listFilters = cListFilters ∧ Src.CS.dmDataDefault = cDmDataDefault ∧
+    Src.CS.fromImpls.map (·.1) = cBufferFromImpls.map (·.1) ++ cNestedFromImpls.map (·.1) ++
+      ["U16Data <- Option<[u16; N]>", "Level2BlockList <- &[ExtMetadataBlock]", "Level8BlockList <- &[ExtMetadataBlock]",
+       "Level10BlockList <- &[ExtMetadataBlock]", "RpuOpaque <- Result<DoviRpu, anyhow::Error>",
+       "RpuDataHeader <- &RuRpuDataHeader", "RpuDataMapping <- &RuRpuDataMapping", "ReshapingCurve <- &DoviReshapingCurve",
+       "PolynomialCurve <- &DoviPolynomialCurve", "MMRCurve <- &DoviMMRCurve", "RpuDataNlq <- &RuRpuDataNlq",
+       "VdrDmData <- &RuVdrDmData"] := by decide
 
 end Dovi.C20
